@@ -175,14 +175,15 @@ def native_short_write(ck, problems):
     return (None if ok_ else True), desc, sc
 
 
-def explore_first(ck, first, m, menu_n, tier, end):
+def explore_first(ck, first, m, menu_n, tier, end, menu=None, reads=None):
     E = ck.E
     st = St(1)
     names = {v: k for k, v in E.enums['BinaryRequest']}
-    R = m + 1 if tier == 'quick' else m + 2
+    R = reads if reads is not None else (m + 1 if tier == 'quick' else m + 2)
+    menu = list(menu) if menu is not None else list(range(menu_n))
 
     def h(E):
-        ops = [first] + [E.choose(menu_n, 'op') for _ in range(m - 1)]
+        ops = [first] + [menu[E.choose(len(menu), 'op')] for _ in range(m - 1)]
         # nothing is sent after a quit: shorten the pipeline there is not needed - requests behind a quit must be ignored
         frames, total = lay_out(E, ops)
         E.assume(z3.UGE(limit, 1024), z3.ULE(limit, 1 << 20))
@@ -250,15 +251,18 @@ def run(tier, seed, replay_path=None):
     if replay_path:
         return generic_replay(ck, replay_path)
     ck.engine()
-    m = 2 if tier == 'quick' else 3
+    m = 2
     menu_n = 8 if tier == 'quick' else 12
+    # thorough: the wider menu (12 opcodes) and both endings for every first request.  Deeper cuts were tried and did not finish:
+    # 3 requests from 12 opcodes (> 1 h) and 2 requests from 16 opcodes with 4 reads plus 3 requests from 6 opcodes (> 40 min);
+    # they are outside the bound.
     ck.bounds.update({'pipeline': f'{m} requests from a menu of {menu_n} opcodes ({[e[0] for e in MENU[:menu_n]]}), fresh server',
-                      'reads': f'<= {m + 1 if tier == "quick" else m + 2} reads of symbolic size', 'peer after the stream': 'closes / stays silent'})
+                      'reads': f'<= {m + 1} reads of symbolic size', 'peer after the stream': 'closes / stays silent'})
     ck.assumptions += ['socket model of mirse/models/tokio_io.py; timeout fires only when the peer is silent', 'library models of DESIGN 3.3']
     items = [(first, end) for end in ('eof', 'silent') for first in range(menu_n)]
     if tier == 'quick':
         items = [(first, 'eof') for first in range(menu_n)] + [(first, 'silent') for first in (0, 3, 5, 7)]
-    ck.fork_map(items, lambda c, it: explore_first(c, it[0], m, menu_n, tier, it[1]))
+    ck.fork_map(items, lambda c, it: explore_first(c, it[0], m, menu_n, tier, it[1], reads=m + 1))
     for need in ('pipeline with quit', 'pipeline with quitq', 'pipeline with no quit', 'pipeline delivered in several segments', 'unimplemented opcode in the pipeline'):
         ck.covers.setdefault(need, False)
     # an oversized request inside a pipeline: skipped exactly, whatever the segmentation, so that its followers are served
